@@ -88,6 +88,15 @@ class AppSim:
                 err = f'main_loop raised {self.main_task.exception()!r}'
         return err
 
+    def renew_loop(self):
+        """The application object is run again in a FRESH event loop (what a second run_forever() / asyncio.run does);
+        the clock goes on."""
+        t = self.vl.clock.t
+        self.vl.close()
+        self.vl = VLoop()
+        self.vl.clock.t = t + 0.5
+        self.main_task = None
+
     def close(self):
         if self.owns_loop:
             self.vl.close()
